@@ -305,6 +305,9 @@ func c03(r *Report) propMeta {
 	r.Exists("verify-uses-lagrange", "pkg/tss.Verify", CallEff("ModNScalar.Mul", "param:rawLagrange"), 1)
 	r.ArgHas("daemon-signs-with-own-lagrange", "cylinder/workers/signing.Signing.handleSigning", "tss.SignSigning", 3, 1, "call:tss.ComputeLagrangeCoefficient")
 
+	r.Rule("C03.R6", "E15 wire fields validated by their own type")
+	r.WireFieldsValidated("wire", "x/tss/types", []string{"MsgSubmitSignature", "MsgSubmitDEs"}, 3)
+
 	return propMeta{
 		Decided: []string{
 			"R1 the generic (unbounded-id) Lagrange path multiplies only in big.Int; Lagrange tables: PRIME_FACTORS[k] multiplies out to k with increasing prime bases for k=2..B (B = the literal of checkLagrangeInput), PRECOMPUTED_POWERS[p][i]==p^i with rows longer than v_p(B!), len(counts) > largest prime, B! < 2^63, N = secp256k1 order; the table path is taken only when every id <= B; duplicate ids and absent mid rejected",
@@ -312,6 +315,7 @@ func c03(r *Report) propMeta {
 			"R3 SubmitSignature stores a partial signature only past: WAITING, assigned member found and address==signer, not yet signed, R == assigned nonce, Lagrange ok, VerifySigningSignature(stored group nonce/key/message, computed lagrange, request signature, assigned member's PubKey) == nil",
 			"R4 AggregatePartialSignatures writes Signature/Status/SetSigning only after CombineSignatures and VerifyGroupSigningSignature(group key, message, that same signature) succeeded; the aggregate is (sum R_i, sum z_i)",
 			"R5 signer and verifier take the challenge from the same HashChallenge over the same three operands and both multiply by the Lagrange scalar",
+			"R6 every pkg/tss-typed field of MsgSubmitSignature / MsgSubmitDEs reaches its own type's Validate() from ValidateBasic (the strict 65-byte signature parse, not the prefix-reading R()/S() accessors): what the handler verifies is what the aggregator later parses",
 		},
 		Undecided: []string{"the algebra (z_i*G == R_i + c*lambda_i*Y_i for honest shares; any threshold subset reconstructs)", "behaviour of the generic path for ids > 20", "secp256k1/keccak implementations"},
 		Assume:    []string{"go/constant evaluates the table literals exactly", "dcrd secp256k1 and go-ethereum keccak are correct"},
